@@ -29,7 +29,7 @@ m = {
               "baseline_off_cmd": "cd /repo && /venv/bin/python -m pytest -ra -q -p no:cacheprovider --timeout=900 --continue-on-collection-errors",
               "source_commits": [], "add_only": True},
     "engines": [{"name": "ubcheck", "path": "/verif/ubcheck", "serves_properties": [c["property_id"] for c in checks],
-                 "kind_free_text": "repository-specific static analysis on Python ast: module/class/function model, value-origin flow and call graph, statement CFG with exceptional edges, lockset/effect/guard analyses, small abstract evaluators over finite domains; thorough tier adds in-memory AST mutation adequacy"}],
+                 "kind_free_text": "repository-specific static analysis on Python ast: module/class/function model, value-origin flow (order-independent least fixed point) and call graph, flag-sensitive statement CFG with exceptional edges, lockset/effect/guard analyses, an abstract evaluator that interprets AST nodes over finite token domains on small symbolic worlds (plans, registries, observers, frame chains), a canonicalisation front-end of semantics-preserving rewrites with the verdict taken over equivalent variants; thorough tier adds in-memory AST mutation adequacy"}],
     "checks": checks,
     "not_applicable": na,
     "notes": data["notes"],
